@@ -43,8 +43,18 @@ fn deltas() -> Vec<(f64, bool)> {
 fn affine_case(m: usize, n: usize, pat: usize, dev: Option<(usize, usize)>, acc: &mut Acc) -> Result<(), String> {
     let a = build_m(pat, m, n, dev);
     let c: Vec<f64> = (0..m).map(|i| (i as f64) * 0.5 - 1.0).collect();
-    for p in points(n) {
-        for (delta, dyadic) in deltas() {
+    for (delta, dyadic) in deltas() {
+        // besides the fixed lattice: points with a coordinate in [-delta, 0) (the perturbed coordinate lands on / crosses zero)
+        let mut pts = points(n);
+        if dyadic {
+            let mut q = pts[1 % pts.len()].clone();
+            q[0] = -delta;
+            pts.push(q);
+            let mut q = pts[2 % pts.len()].clone();
+            q[n - 1] = -delta * 0.5;
+            pts.push(q);
+        }
+        for p in pts {
             acc.hit("jacobian calls");
             let log: RefCell<Vec<Vec<f64>>> = RefCell::new(vec![]);
             let f = |x: Vec64| -> Vec64 {
@@ -67,6 +77,7 @@ fn affine_case(m: usize, n: usize, pat: usize, dev: Option<(usize, usize)>, acc:
             // the sequence of evaluation points: x, x + delta e_0, x + delta e_1, ... each coordinate restored in between
             let lg = log.borrow();
             ensure!(lg.len() == n + 1, "{} evaluations expected {}", lg.len(), n + 1);
+            ensure!(lg.iter().all(|v| v.len() == n), "the map was evaluated at a vector of length {:?} instead of {}", lg.iter().map(|v| v.len()).collect::<Vec<_>>(), n);
             ensure!(lg[0] == p, "first evaluation at {:?} instead of the point {:?}", lg[0], p);
             for j in 0..n {
                 for k in 0..n {
@@ -196,6 +207,28 @@ fn main() {
                 Ok(Ok(())) => {}
                 Ok(Err(e)) => acc.fail(i, key(), e),
                 Err(p) => acc.fail(i, key(), format!("unexpected panic: {}", p)),
+            }
+        },
+    );
+    // call sequences on one thread: a Jacobian of a map with MANY variables followed by ones with fewer (and back)
+    ctx.lattice(
+        "call sequences on one thread: dimensions n = 6,5,..,1,4,2,6 in a row (nothing may be carried from call to call)",
+        2,
+        |i| format!("pattern {}", i),
+        |i, acc| {
+            acc.nontriv("dimension sequence");
+            let mut local = Acc::new("t");
+            let res = catch(|| -> Result<(), String> {
+                for n in [6usize, 5, 4, 3, 2, 1, 4, 2, 6, 1] {
+                    affine_case((n % 3) + 1, n, i as usize, None, &mut local)?;
+                    affine_case_cmplx((n % 2) + 2, n, i as usize)?;
+                }
+                Ok(())
+            });
+            match res {
+                Ok(Ok(())) => {}
+                Ok(Err(e)) => acc.fail(i, format!("dimension sequence pattern {}", i), e),
+                Err(p) => acc.fail(i, format!("dimension sequence pattern {}", i), format!("unexpected panic: {}", p)),
             }
         },
     );
